@@ -1,9 +1,12 @@
 package main
 
 import (
+	"bytes"
+	"encoding/json"
 	"errors"
 	"fmt"
 	"math/big"
+	"os"
 	"sort"
 	"strconv"
 	"strings"
@@ -101,25 +104,41 @@ type keyset struct {
 	sks  []groupsig.Seckey
 	pks  []groupsig.Pubkey
 	gpk  groupsig.Pubkey
-	idx  map[string]int // id hex -> index
+	gsk  groupsig.Seckey // f(0): used only as the independent reference for the group signature
+	idx  map[string]int  // id hex -> index
 }
 
-var keysets = map[int]*keyset{}
+var keysets = map[string]*keyset{}
 
 func scalar(r *hx.Rng) groupsig.Seckey {
 	return *groupsig.NewSeckeyFromBigInt(new(big.Int).SetBytes(r.Bytes(32)))
 }
 
-func getKeys(n int) *keyset {
-	if ks, ok := keysets[n]; ok {
+// variant "lz": member 0 has a tiny id (5), member 1 an id with two leading zero bytes, the last member
+// one with a single leading zero byte — big-endian encodings shorter than 32 bytes (class 2).
+func getKeys(n int, variant string) *keyset {
+	kk := fmt.Sprintf("%d/%s", n, variant)
+	if ks, ok := keysets[kk]; ok {
 		return ks
 	}
-	r := hx.NewRng(0xC15C15<<8 + uint64(n))
+	r := hx.NewRng(0xC15C15<<8 + uint64(n) + uint64(len(variant))<<32)
 	k := model.Param.GetGroupK(n)
 	ks := &keyset{n: n, k: k, idx: map[string]int{}}
 	for i := 0; i < n+2; i++ {
 		b := r.Bytes(32)
 		b[0] |= 1
+		if variant == "lz" {
+			switch {
+			case i == 0:
+				b = []byte{5}
+			case i == 1:
+				b[0], b[1] = 0, 0
+				b[2] |= 1
+			case i == n-1:
+				b[0] = 0
+				b[1] |= 1
+			}
+		}
 		ks.ids = append(ks.ids, groupsig.DeserializeID(b))
 	}
 	ks.ids = append(ks.ids, groupsig.DeserializeID([]byte{})) // zero id
@@ -127,12 +146,14 @@ func getKeys(n int) *keyset {
 	// ShareSeckey/AggregateSeckeys/AggregatePubkeys)
 	shares := make([][]groupsig.Seckey, n)
 	var pub0 []groupsig.Pubkey
+	var sec0 []groupsig.Seckey
 	for d := 0; d < n; d++ {
 		coeffs := make([]groupsig.Seckey, k)
 		for j := range coeffs {
 			coeffs[j] = scalar(r)
 		}
 		pub0 = append(pub0, *groupsig.GeneratePubkey(coeffs[0]))
+		sec0 = append(sec0, coeffs[0])
 		for j := 0; j < n; j++ {
 			shares[j] = append(shares[j], *groupsig.ShareSeckey(coeffs, ks.ids[j]))
 		}
@@ -143,6 +164,7 @@ func getKeys(n int) *keyset {
 		ks.pks = append(ks.pks, *groupsig.GeneratePubkey(sk))
 	}
 	ks.gpk = *groupsig.AggregatePubkeys(pub0)
+	ks.gsk = *groupsig.AggregateSeckeys(sec0)
 	for i := n; i < n+3; i++ { // outsiders have keys of their own
 		sk := scalar(r)
 		ks.sks = append(ks.sks, sk)
@@ -151,7 +173,7 @@ func getKeys(n int) *keyset {
 	for i, id := range ks.ids {
 		ks.idx[id.GetHexString()] = i
 	}
-	keysets[n] = ks
+	keysets[kk] = ks
 	return ks
 }
 
@@ -165,13 +187,14 @@ type viol struct {
 }
 
 type runner struct {
-	out    *hx.Out
-	st     *stats
-	search bool
-	viols  []viol
-	seen   map[string]bool
-	evals  int
-	buf    *[][2]string // when set, ops are collected instead of written (deferred scripts)
+	out      *hx.Out
+	st       *stats
+	search   bool
+	viols    []viol
+	seen     map[string]bool
+	evals    int
+	retained []retainedScen // class 3: rounds kept alive and re-read after everything else ran
+	buf      *[][2]string   // when set, ops are collected instead of written (deferred scripts)
 }
 
 type scen struct {
@@ -193,6 +216,9 @@ type scen struct {
 	seenFinished bool
 	reaped       bool
 	life         *lifeScen
+	oracleSplit  int
+	wireSplit    int
+	refCache     map[string][]byte
 	sc           script
 }
 
@@ -219,6 +245,19 @@ func (s *scen) data(name string) []byte {
 		return sha(s.hash.Bytes(), []byte(name))
 	}
 	panic("bad data name " + name)
+}
+
+func (s *scen) refShare(i int, data []byte) []byte {
+	key := strconv.Itoa(i) + "|" + string(data)
+	if s.refCache == nil {
+		s.refCache = map[string][]byte{}
+	}
+	if b, ok := s.refCache[key]; ok {
+		return b
+	}
+	b := groupsig.Sign(s.ks.sks[i], data).Serialize()
+	s.refCache[key] = b
+	return b
 }
 
 func (s *scen) verifyCached(who int, pk groupsig.Pubkey, msg []byte, sig groupsig.Signature) bool {
@@ -256,6 +295,8 @@ func pbBytes(field int, b []byte) []byte {
 func (s *scen) sigBytes(spec string) ([]byte, string) {
 	trailing := strings.HasSuffix(spec, "+t")
 	spec = strings.TrimSuffix(spec, "+t")
+	plus1, minus1 := strings.HasSuffix(spec, "+1"), strings.HasSuffix(spec, "-1")
+	spec = strings.TrimSuffix(strings.TrimSuffix(spec, "+1"), "-1")
 	var b []byte
 	var sym string
 	switch {
@@ -287,6 +328,12 @@ func (s *scen) sigBytes(spec string) ([]byte, string) {
 	}
 	if trailing {
 		b = append(append([]byte{}, b...), 0xde, 0xad)
+	}
+	if plus1 { // 65 bytes: one past the size G1.Unmarshal reads
+		b = append(append([]byte{}, b...), 0x01)
+	}
+	if minus1 && len(b) > 0 { // 63 bytes: one short, the point stays nil
+		b, sym = b[:len(b)-1], "nil"
 	}
 	return b, sym
 }
@@ -322,6 +369,10 @@ func (s *scen) build(recipe string) built {
 		idB = s.ks.ids[signer].Serialize()
 	case "pad":
 		idB = append([]byte{0, 0}, s.ks.ids[signer].Serialize()...)
+	case "pad1": // 33 bytes with a leading zero: still this id
+		idB = append([]byte{0}, s.ks.ids[signer].Serialize()...)
+	case "strip": // minimal big-endian bytes (shorter than 32 for ids with leading zero bytes)
+		idB = s.ks.ids[signer].GetBigInt().Bytes()
 	case "over":
 		idB = append([]byte{1}, s.ks.ids[signer].Serialize()...)
 		shape = "over"
@@ -351,6 +402,15 @@ func (s *scen) build(recipe string) built {
 			panic(err)
 		}
 		wire = b
+		// independent encoding of the same message from the secret key (field order of the .proto)
+		sd := append(pbBytes(1, s.hash.Bytes()), pbBytes(2, s.refShare(signer, s.hash.Bytes()))...)
+		sd = append(sd, pbBytes(3, s.ks.ids[signer].Serialize())...)
+		sd = append(sd, 0x20, byte(common.ConsensusVersion))
+		ref := append(pbBytes(1, s.hash.Bytes()), pbBytes(2, s.refShare(signer, s.prand))...)
+		ref = append(ref, pbBytes(3, sd)...)
+		if !bytes.Equal(ref, wire) {
+			s.wireSplit++
+		}
 	} else {
 		switch f["wire"] {
 		case "proto":
@@ -410,7 +470,13 @@ func (s *scen) entries(sh []logical.VerifC15Share, data []byte) (string, bool) {
 		if !ok {
 			i = 999
 		}
-		v := ok && s.verifyCached(i, s.ks.pks[i], data, x.Sig)
+		// Independent reference (class 1): by uniqueness of BLS signatures a share is member i's valid
+		// share on `data` iff it is the point Sign(sk_i, data) — computed here from the secret key with
+		// ScalarMult/hash-to-curve only, no pairing and none of the verification code under test.
+		v := ok && bytes.Equal(x.Sig.Serialize(), s.refShare(i, data))
+		if ok && s.verifyCached(i, s.ks.pks[i], data, x.Sig) != v {
+			s.oracleSplit++ // pairing check and reference disagree: a broken tie, reported by the caller
+		}
 		all = all && v && s.pk[i]
 		es = append(es, e{i, v})
 	}
@@ -431,6 +497,7 @@ type observed struct {
 	gAll, rAll bool
 	genG, genR bool
 	generated  bool
+	split      bool
 	ending     string
 }
 
@@ -475,8 +542,12 @@ func (s *scen) observe(strayKey common.Hash) observed {
 	if len(s.chain.generated) > 0 {
 		bh := s.chain.generated[len(s.chain.generated)-1]
 		o.generated = true
-		o.genG = groupsig.VerifySig(s.ks.gpk, s.hash.Bytes(), *groupsig.DeserializeSign(bh.Signature))
-		o.genR = groupsig.VerifySig(s.ks.gpk, s.prand, *groupsig.DeserializeSign(bh.Random))
+		o.genG = bytes.Equal(groupsig.DeserializeSign(bh.Signature).Serialize(), groupsig.Sign(s.ks.gsk, s.hash.Bytes()).Serialize()) && len(bh.Signature) > 0
+		o.genR = bytes.Equal(groupsig.DeserializeSign(bh.Random).Serialize(), groupsig.Sign(s.ks.gsk, s.prand).Serialize()) && len(bh.Random) > 0
+		if o.genG != groupsig.VerifySig(s.ks.gpk, s.hash.Bytes(), *groupsig.DeserializeSign(bh.Signature)) ||
+			o.genR != groupsig.VerifySig(s.ks.gpk, s.prand, *groupsig.DeserializeSign(bh.Random)) {
+			s.oracleSplit++
+		}
 		gen = b01(o.genG) + b01(o.genR)
 	}
 	end := "-"
@@ -488,7 +559,14 @@ func (s *scen) observe(strayKey common.Hash) observed {
 	if strayKey != s.hash {
 		stray = s.round.StrayFuture(common.ToHex(strayKey.Bytes()))
 	}
-	o.line = fmt.Sprintf("ph=%s n=%d cp=%s k=%d g=%s r=%s grec=%s rrec=%s mgr=%s done=%s end=%s gen=%s proc=%d fut=%d stray=%d",
+	split := ""
+	if s.oracleSplit > 0 || s.wireSplit > 0 {
+		// the pairing check and the key-based reference disagree, or the sender-side encoder and the
+		// hand encoding of the same message disagree: never silent agreement
+		split = fmt.Sprintf(" TIE-BROKEN(oracle=%d,wire=%d)", s.oracleSplit, s.wireSplit)
+	}
+	o.split = split != ""
+	o.line = fmt.Sprintf("ph=%s n=%d cp=%s k=%d g=%s r=%s grec=%s rrec=%s mgr=%s done=%s end=%s gen=%s proc=%d fut=%d stray=%d"+split,
 		ph, number, b01(st.CanProcessed), st.Threshold, g, r, b01(st.GRecovered), b01(st.RRecovered),
 		b01(st.InManager), b01(st.Done), end, gen, len(st.Processed), len(st.Future), stray)
 	return o
@@ -530,19 +608,42 @@ func (r *runner) addViol(s *scen, key, desc string, extra map[string]interface{}
 	for k, v := range extra {
 		rep[k] = v
 	}
-	r.viols = append(r.viols, viol{Key: key, Desc: desc, Replay: rep})
+	v := viol{Key: key, Desc: desc, Replay: rep}
+	r.viols = append(r.viols, v)
+	if b, err := json.Marshal(v); err == nil {
+		fmt.Println("VIOL " + string(b))
+		os.Stdout.Sync()
+	}
 }
 
 // setup builds the scenario and the node-side objects named in a script header.
 func (r *runner) setup(sc script) (*scen, *model.GroupInfo, *types.BlockHeader, *types.BlockHeader, []int, bool) {
 	hd := kv(sc.lines[0])
 	n, _ := strconv.Atoi(hd["n"])
-	ks := getKeys(n)
+	ks := getKeys(n, hd["ids"])
 	seedBytes := sha([]byte(sc.text()))
+	if hd["hashof"] != "" {
+		seedBytes = sha([]byte("hashof:" + hd["hashof"])) // several scripts on ONE block hash (class 3)
+	}
 	s := &scen{ks: ks, pk: map[int]bool{}, tags: map[string]int{}, mids: map[string]int{}, vcache: map[string]bool{},
 		honest: map[int]bool{}, sc: sc, rng: hx.NewRng(new(big.Int).SetBytes(seedBytes[:8]).Uint64())}
 	s.hash = common.BytesToHash(sha([]byte("block"), seedBytes))
+	if hd["lz"] == "1" {
+		// rejection sampling (class 2): a block hash for which member 0's share has a coordinate with
+		// a leading zero byte
+		for salt := 0; salt < 4000; salt++ {
+			h := sha([]byte("block"), seedBytes, []byte{byte(salt), byte(salt >> 8)})
+			sg := groupsig.Sign(ks.sks[0], h).Serialize()
+			if sg[0] == 0 || sg[32] == 0 {
+				s.hash = common.BytesToHash(h)
+				break
+			}
+		}
+	}
 	switch hd["prand"] {
+	case "31", "33", "63", "65":
+		nb, _ := strconv.Atoi(hd["prand"])
+		s.prand = append(sha([]byte("prand"), seedBytes), append(sha([]byte("prand2"), seedBytes), 7)...)[:nb]
 	case "32":
 		s.prand = sha([]byte("prand"), seedBytes)
 	case "hash":
@@ -691,6 +792,9 @@ func (r *runner) runScript(sc script) {
 		end = "open"
 	}
 	r.st.Endings[end]++
+	if s.entered {
+		r.retain(s, sc.name)
+	}
 	if r.search && s.entered {
 		r.checkFinal(s)
 	}
@@ -703,6 +807,9 @@ func (r *runner) runScript(sc script) {
 func (r *runner) check(s *scen, o observed, at string) {
 	if !r.search {
 		return
+	}
+	if o.split {
+		r.addViol(s, "reference-oracle-disagrees", "VerifySig and the secret-key reference (or the two encodings of an honest message) disagree: the code's own verifier/encoder cannot be used as the oracle", map[string]interface{}{"at": at, "state": o.line})
 	}
 	if !o.gAll {
 		r.addViol(s, "share-over-other-hash-counted",
@@ -746,7 +853,10 @@ func (r *runner) checkFinal(s *scen) {
 	}
 	o := s.observe(s.hash)
 	if s.ending != "done" || !o.generated || !o.genG || !o.genR {
-		if s.life != nil && s.life.overStored {
+		// narrow classifier for the recorded finding: round1.Start was left by a panic (stored messages
+		// still present after the party is in round1) AND an honest sender's message is among them while
+		// its share is missing. Anything else that stops a quorum is a new violation.
+		if s.life != nil && s.life.overStored && o.st.Round == 1 && len(o.st.Future) > 0 && s.lostInStart(o) {
 			r.addViol(s, "stored-share-lost-by-start-panic",
 				fmt.Sprintf("%d >= k=%d honest members' valid shares were delivered after the proposal was accepted from a chain notification, but the first one was stored by round0 next to a message with an over-long signer id; round1.Start ranged over that message first, its panic (ID.Serialize) escaped the loop and the honest share was never processed (its id stays in futureMessages, a re-send is refused)", len(s.honest), s.ks.k),
 				map[string]interface{}{"state": o.line, "note": "depends on Go map iteration order: the searcher repeats the script"})
@@ -756,4 +866,65 @@ func (r *runner) checkFinal(s *scen) {
 			fmt.Sprintf("%d >= k=%d honest members' valid shares were delivered, yet the block was not finalised (ending=%q)", len(s.honest), s.ks.k, s.ending),
 			map[string]interface{}{"state": o.line})
 	}
+}
+
+func groupKReal(n int) int { return model.Param.GetGroupK(n) }
+
+type retainedScen struct {
+	s    *scen
+	snap string
+	name string
+}
+
+// snapshot renders every byte the finished (or still collecting) round holds.
+func (s *scen) snapshot() string {
+	st := s.round.State()
+	var b strings.Builder
+	for _, e := range st.GSign {
+		fmt.Fprintf(&b, "g %s %x\n", e.IdHex, e.Sig.Serialize())
+	}
+	for _, e := range st.RSign {
+		fmt.Fprintf(&b, "r %s %x\n", e.IdHex, e.Sig.Serialize())
+	}
+	fmt.Fprintf(&b, "G %x R %x cp=%v fin=%v ended=%v thr=%d", st.GGroupSign.Serialize(), st.RGroupSign.Serialize(), st.CanProcessed, st.Finished, st.Ended, st.Threshold)
+	for _, h := range s.chain.generated {
+		fmt.Fprintf(&b, " gen %x %x", h.Signature, h.Random)
+	}
+	return b.String()
+}
+
+func (r *runner) retain(s *scen, name string) {
+	if r.search || s.round == nil || len(r.retained) >= 40 {
+		return
+	}
+	r.retained = append(r.retained, retainedScen{s: s, snap: s.snapshot(), name: name})
+}
+
+// recheckRetained: the objects of earlier rounds must not have been touched by later rounds
+// (shared buffers, pooled points, caches handing out aliased values).
+func (r *runner) recheckRetained() []string {
+	var changed []string
+	for _, x := range r.retained {
+		if x.s.snapshot() != x.snap {
+			changed = append(changed, x.name)
+		}
+	}
+	return changed
+}
+
+// lostInStart: some honest sender whose message was delivered has no share in gSign although the
+// threshold was not reached before it arrived — and stored messages are still lying around.
+func (s *scen) lostInStart(o observed) bool {
+	have := map[int]bool{}
+	for _, e := range o.st.GSign {
+		if i, ok := s.ks.idx[e.IdHex]; ok {
+			have[i] = true
+		}
+	}
+	for i := range s.honest {
+		if !have[i] {
+			return !o.st.GRecovered
+		}
+	}
+	return false
 }
